@@ -83,7 +83,18 @@ func (w *batchWorld) many(shardMod int) func(ctx context.Context, args []interfa
 			res = append(res, f(a))
 		}
 		if w.faulty {
-			switch w.c.Biased(6, 700, "many-outcome") {
+			switch w.c.Biased(8, 700, "many-outcome") {
+			case 6:
+				// a runtime error (not a string) panic inside Many
+				mc.outcome = "panic"
+				w.c.Fault("batch-many-runtime-panic")
+				var m map[string]int
+				m[fmt.Sprintf("boom-%d", len(w.calls))] = 1
+			case 7:
+				// a nil slice with a nil error for a non-empty batch
+				mc.outcome = "short"
+				w.c.Fault("batch-many-nil-result")
+				return nil, nil
 			case 1:
 				mc.outcome = "error"
 				mc.err = fmt.Errorf("many failed: call %d: %w", len(w.calls), errMany)
@@ -295,7 +306,7 @@ func batchBody(c *runner.Ctx) {
 			case "error":
 				ok = r.err == mc.err
 			case "panic":
-				ok = strings.HasPrefix(r.err.Error(), "Func.Many panicked: boom-")
+				ok = strings.HasPrefix(r.err.Error(), "Func.Many panicked: boom-") || strings.HasPrefix(r.err.Error(), "Func.Many panicked: assignment to entry in nil map")
 			case "short", "long":
 				ok = r.err.Error() == "Func.Many returned incorrect number of results"
 			}
